@@ -1188,6 +1188,7 @@ def run_query(ex, b):
 def load_edges(ex, b, ents_rows):
     db = b.db
     for edge, opts in b.with_edges:
+        esel = None
         if edge in M2O[b.e]:
             fkcol, target = M2O[b.e][edge]
             for entp, r in ents_rows:
@@ -1198,6 +1199,7 @@ def load_edges(ex, b, ents_rows):
                         c = And(t.exists, Not(r.isnull(fkcol)), ex.eq(r.v[fkcol], t.v['id']))
                         if opts:
                             c = And(c, row_matches(ex, db, target, t, edge_opt_preds(ex, db, target, opts), db.schema.table[target]))
+                            esel = edge_opt_preds.last_select
                         if c is False:
                             continue
                         pairs.append((c, t))
@@ -1211,17 +1213,20 @@ def load_edges(ex, b, ents_rows):
                                 break
                 edges = ex.getf(entp, 'Edges')
                 es = entp.get().f[ex.struct_field_index(entp.get().t, 'Edges')]
-                es.f[ex.struct_field_index(es.t, edge)] = entity_from_row(ex, db, target, found) if found is not None else None
+                es.f[ex.struct_field_index(es.t, edge)] = entity_from_row(ex, db, target, found, esel) if found is not None else None
         elif edge in O2M[b.e]:
             target, fkcol = O2M[b.e][edge]
             preds = edge_opt_preds(ex, db, target, opts)
+            esel = edge_opt_preds.last_select if opts else None
+            if esel:
+                esel = list(esel) + [fkcol]        # ent adds the foreign key it needs to attach the children
             for entp, r in ents_rows:
                 kids = []
                 for t in db.t[target]:
                     c = And(t.exists, Not(t.isnull(fkcol)), ex.eq(t.v[fkcol], r.v['id']),
                             row_matches(ex, db, target, t, preds, db.schema.table[target]))
                     if ex.branch(c):
-                        kids.append(entity_from_row(ex, db, target, t))
+                        kids.append(entity_from_row(ex, db, target, t, esel))
                 es = entp.get().f[ex.struct_field_index(entp.get().t, 'Edges')]
                 es.f[ex.struct_field_index(es.t, edge)] = ex.mkslice(kids)
         else:
@@ -1229,6 +1234,7 @@ def load_edges(ex, b, ents_rows):
 
 
 def edge_opt_preds(ex, db, target, opts):
+    edge_opt_preds.last_select = None
     """With<Edge>(func(q *XQuery){ q.Where(...) }) options: run them on a scratch builder and take its predicates"""
     if not opts:
         return []
@@ -1236,7 +1242,8 @@ def edge_opt_preds(ex, db, target, opts):
     for o in opts:
         ex.call_value(o, [qb])
     if qb.order or qb.limit is not None or qb.with_edges:
-        raise Unsupported('edge option other than Where')
+        raise Unsupported('edge option other than Where / Select')
+    edge_opt_preds.last_select = qb.select       # column projection of the edge query (unselected fields of the loaded entities stay zero)
     return qb.preds
 
 
